@@ -109,3 +109,9 @@ Inductive hitem :=
   | PIfChunked (k v : str)        (* if <chunked-framing condition>: self.send_header(k, v) *)
   | PHeader (k v : str)           (* self.send_header(k, v) *)
   | PEnd.                         (* self.end_headers() *)
+
+(* what a call of start_response does *)
+Inductive sr_outcome :=
+  | SRAccept        (* status_set / headers_set replaced, write returned *)
+  | SRReraise       (* raise exc_info[1].with_traceback(exc_info[2]) *)
+  | SRAssert.       (* raise AssertionError("Headers already set") *)
